@@ -86,6 +86,24 @@ def fmtIter (v : View) : String :=
       let (size, viol, ds) := iterLaws v
       s!"iter {size} {viol} : {ints ds}"
 
+/-- positions 0..n reached by repeated `++` from `b` (n+1 iterators) -/
+def incChain (b : ElemIt) : Nat → Option (List ElemIt)
+  | 0 => some [b]
+  | k + 1 => do
+    let rest ← incChain b k
+    match rest.getLast? with
+    | none => none
+    | some it => do let it' ← it.inc; pure (rest ++ [it'])
+
+/-- positions n..0 reached by repeated `--` from `e`, returned in increasing order of position -/
+def decChain (e : ElemIt) : Nat → List ElemIt
+  | 0 => [e]
+  | k + 1 =>
+    let rest := decChain e k
+    match rest.head? with
+    | none => []
+    | some it => it.dec :: rest
+
 /-- C02 laws on `elements()`: positions reached by `++` from begin, `--` from end, `begin+k`, `end-(n-k)`,
     `range[k]`, `begin[k]`, plus the arithmetic laws. `none` = the model hit a division by zero. -/
 def elemLaws (v : View) : Option (Int × Nat × List Int) := do
@@ -94,19 +112,9 @@ def elemLaws (v : View) : Option (Int × Nat × List Int) := do
   let nn := n.toNat
   let b ← r.begin'
   let e ← r.end'
-  -- by ++
-  let incs : List ElemIt := (List.range nn).foldl (fun (acc : List ElemIt) _ =>
-      match acc with
-      | [] => []
-      | it :: _ => it.inc :: acc) [b]
-  let incs := incs.reverse   -- positions 0..n
+  let incs ← incChain b nn
   let byInc := (incs.take nn).map ElemIt.current
-  -- by -- from end
-  let decs : List ElemIt := (List.range nn).foldl (fun (acc : List ElemIt) _ =>
-      match acc with
-      | [] => []
-      | it :: _ => it.dec :: acc) [e]
-  -- decs = [pos 0, pos 1, ..., pos n]
+  let decs := decChain e nn
   let byDec := (decs.take nn).map ElemIt.current
   let idxs := boxIndices v.exts
   let want := idxs.map v.addr
@@ -116,28 +124,42 @@ def elemLaws (v : View) : Option (Int × Nat × List Int) := do
   let byAt ← (List.range nn).mapM fun (k : Nat) => b.at' (Int.ofNat k)
   let laws ← (List.range (nn + 1)).mapM fun (p : Nat) => do
     let it ← b.add (Int.ofNat p)
+    let w := want.getD p 0
     let inner ← (List.range (nn + 1)).mapM fun (q : Nat) => do
       let k : Int := Int.ofNat q - Int.ofNat p
       let jt ← it.add k
       let back ← jt.sub' k
       let atv ← if q < nn then (it.at' k).map (· == jt.current) else some true
-      pure [ back.eq it && (q == nn || back.ns == it.ns || true),
+      pure [ back.eq it && (p == nn || back.current == w),
              jt.diff it == k,
              it.lt jt == decide (0 < jt.diff it),
              atv,
              (if q < nn then jt.current == want.getD q 0 else true),
              (ElemIt.assign it jt).eq jt && (if q < nn then (ElemIt.assign it jt).current == jt.current else true) ]
+    -- mixing ++/-- with arithmetic: (++it) - 1, (++it)[-1], (--it) + 1
+    let mixUp ← if p < nn then do
+        let t ← it.inc
+        let u ← t.sub' 1
+        let a ← t.at' (-1)
+        let d := t.dec
+        pure [u.current == w, a == w, d.current == w, d.eq it]
+      else pure []
+    let mixDown ← if p > 0 && p < nn then do
+        let t := it.dec
+        let u ← t.add 1
+        let t2 ← t.inc
+        pure [u.current == w, t2.current == w, t2.eq it]
+      else pure []
     let c := [ it.diff b == Int.ofNat p, e.diff it == n - Int.ofNat p,
-               (if p < nn then it.inc.dec.current == it.current else true),
-               (if p > 0 then it.dec.inc.eq it && (if p < nn then it.dec.inc.current == it.current else true) else true),
                (if p == nn then it.eq e else !(it.eq e)) ]
-    pure (c ++ inner.flatten)
+    pure (c ++ mixUp ++ mixDown ++ inner.flatten)
+  let lastInc := match incs.getLast? with | some it => it.eq e | none => false
   let frontBack : List Bool :=
     if nn == 0 then [] else
       [ b.current == want.getD 0 0,
         (e.dec).current == want.getD (nn - 1) 0 ]
   let agree := [ byInc == want, byDec == want, byAdd == want, bySub == want, byRange == want, byAt == want,
-                 (idxs.length : Int) == n ]
+                 (idxs.length : Int) == n, lastInc ]
   pure (n, count (agree ++ frontBack ++ laws.flatten), byInc)
 
 def fmtElems (v : View) : String :=
@@ -218,6 +240,19 @@ def step (st : St) (line : String) : St × Option String :=
   | ["q", "paths", reg] => (st, reg.toNat?.map fun r => fmtPaths st.views[r]!)
   | ["q", "iter", reg] => (st, reg.toNat?.map fun r => fmtIter st.views[r]!)
   | ["q", "elems", reg] => (st, reg.toNat?.map fun r => fmtElems st.views[r]!)
+  | ["q", "death_index", reg, i, _variant] =>
+    match reg.toNat?, i.toInt? with
+    | some r, some k =>
+      let v := st.views[r]!
+      (st, some (if v.lay.length == 0 || v.indexAssert k then "death none" else "death abort assert-in-multi"))
+    | _, _ => (st, some "bad-op")
+  | ["q", "death_assign", a, b, _variant] =>
+    match a.toNat?, b.toNat? with
+    | some ra, some rb =>
+      let va := st.views[ra]!
+      let vb := st.views[rb]!
+      (st, some (if va.lay.length == 0 || View.assignAssert va vb then "death none" else "death abort assert-in-multi"))
+    | _, _ => (st, some "bad-op")
   | ["q", "bcast", reg, junk, i] =>
     match reg.toNat?, junk.toInt?, i.toInt? with
     | some r, some j, some k =>
